@@ -348,10 +348,11 @@ def finish (s : State) (st : RunSt) (h : String) (f : Option Fault) (commitFault
   if dry then rolledBack s st h f { log := some log } else commitOrFail s st h f commitFault log
 
 /-- `forgeLogRetry` → `runTx` on a fresh transaction `t2` (the injected fault is
-    one-shot, so the loop body runs once; the `ErrIdempotencyKeyConflict` branch of
+    one-shot, so the loop body runs once; an armed COMMIT failure hits this attempt's
+    `Commit` when the first attempt never reached its own; the `ErrIdempotencyKeyConflict` branch of
     the loop needs a concurrent writer and is out of scope of sequential histories:
     the conflict is reported as the error it is). -/
-def retry (strict : Bool) (op : Op) (f : Option Fault) (s : State) (st : RunSt) : Outcome :=
+def retry (strict : Bool) (op : Op) (f : Option Fault) (commitFault : Bool) (s : State) (st : RunSt) : Outcome :=
   match fires f (st.n + 1) with
   | some kind =>
     { state := { s with seq := st.seq }, resp := { err := some (.store kind.err) },
@@ -360,7 +361,7 @@ def retry (strict : Bool) (op : Op) (f : Option Fault) (s : State) (st : RunSt) 
     match run op.now "t2" f (runLog strict op.kind op.ik op.ihash op.sv 2)
             { db := s.db, seq := st.seq, n := st.n + 1, trace := st.trace ++ ["root BeginTX"] } with
     | (.error e, st1) => failedAttempt s st1 "t2" f e
-    | (.ok log, st1) => finish s st1 "t2" f false op.dry log
+    | (.ok log, st1) => finish s st1 "t2" f commitFault op.dry log
 
 def forgeLog (strict : Bool) (op : Op) (f : Option Fault) (commitFault : Bool) (s : State) : Outcome :=
   match fires f 1 with
@@ -374,7 +375,7 @@ def forgeLog (strict : Bool) (op : Op) (f : Option Fault) (commitFault : Bool) (
       match run op.now "t1" f (runLog strict op.kind op.ik op.ihash op.sv 1) st1 with
       | (.error e, st2) =>
         if e = .store .deadlock ∨ e = .store .ikConflict then
-          retry strict op f s
+          retry strict op f commitFault s
             { st2 with n := st2.n + 1, trace := st2.trace ++ [rollbackEntry "t1" f (st2.n + 1)] }
         else failedAttempt s st2 "t1" f e
       | (.ok log, st2) => finish s st2 "t1" f commitFault op.dry log
